@@ -3,8 +3,10 @@ module verif/harness
 go 1.21
 
 require (
+	github.com/blevesearch/segment v0.9.0
 	github.com/blugelabs/bluge v0.0.0
 	github.com/blugelabs/bluge_segment_api v0.2.0
+	golang.org/x/text v0.3.0
 )
 
 require (
@@ -13,7 +15,6 @@ require (
 	github.com/bits-and-blooms/bitset v1.2.0 // indirect
 	github.com/blevesearch/go-porterstemmer v1.0.3 // indirect
 	github.com/blevesearch/mmap-go v1.0.4 // indirect
-	github.com/blevesearch/segment v0.9.0 // indirect
 	github.com/blevesearch/snowballstem v0.9.0 // indirect
 	github.com/blevesearch/vellum v1.0.7 // indirect
 	github.com/blugelabs/ice v1.0.0 // indirect
@@ -23,7 +24,6 @@ require (
 	github.com/golang/snappy v0.0.1 // indirect
 	github.com/klauspost/compress v1.15.2 // indirect
 	golang.org/x/sys v0.0.0-20220520151302-bc2c85ada10a // indirect
-	golang.org/x/text v0.3.0 // indirect
 )
 
 replace github.com/blugelabs/bluge => /repo
